@@ -136,6 +136,23 @@ def real_saturating(chk, tier, own):
         chk.sample(dict(kind="saturating-real-runs", instance=inst["name"], max=inst["max"],
                         cores=[p.get("cores", 1) for p in inst["procs"] if p["kind"] == "cmd"], runs=len(rrs), slot_events=nrows), limit=8)
 
+def inductive_part(chk):
+    """unbounded-length argument with Apalache: IndInv is inductive and implies the bound, for every MaxSlots in 1..6 and
+    every core assignment of 6 tasks at once (constants fixed by CInit); a weakened copy must fail (vacuity)."""
+    obligations = [("Init => IndInv", ["--cinit=CInit", "--init=Init", "--inv=IndInv", "--length=0"]),
+                   ("IndInv /\\ Next => IndInv'", ["--cinit=CInit", "--init=IndInit", "--inv=IndInv", "--length=1"]),
+                   ("IndInv => C06_Bound", ["--cinit=CInit", "--init=IndInit", "--inv=C06_Bound", "--length=0"])]
+    res = pmap(lambda o: (o[0], run_apalache("SlotsInd", o[1])), obligations, workers=3)
+    done = 0
+    for name, (ok, txt) in res:
+        if ok is True: done += 1
+        elif ok is False: chk.undecided.append("Apalache: obligation '%s' of the slot invariant fails - specification changed?" % name)
+        else: chk.undecided.append("Apalache did not decide '%s': %s" % (name, txt[-200:]))
+    ok, txt = run_apalache("SlotsInd", obligations[1][1], edit=('ReleaseOne(t) == /\\ pc[t] = "ended"', 'ReleaseOne(t) == /\\ pc[t] \\in {"ended", "running"}'))
+    if ok is not False:
+        chk.undecided.append("Apalache: the weakened slot model (release while running) is not refuted: %s" % txt[-100:])
+    chk.extra["inductive_invariant"] = dict(tool="apalache-mc 0.58", N=6, MaxMax=6, obligations=len(obligations), discharged=done, weakened_copy_refuted=(ok is False))
+
 @register("C06")
 def check_C06(tier):
     chk = Check("C06", tier)
@@ -144,6 +161,7 @@ def check_C06(tier):
                 "non-trivial = distinct (max, core multiset, #tasks) with more ready work than slots")
     chk.assumptions = ["hook placement makes logged counters lower bounds of the real ones (DESIGN 5/C06)"]
     model_part(chk, tier)
+    inductive_part(chk)
     real_saturating(chk, tier, {"C06"})
     return chk.finish()
 
